@@ -58,6 +58,12 @@ V4_Inlines(t) ==
     [] t = "A" -> { "", "I", "B" }
     [] OTHER -> {}
 
+\* V4i: typeless and typed inline fragments side by side and nested, few fields: the type that applies after an
+\* inline fragment has been left is the one that applied before it was entered
+V4i_Leafs(t) == CASE t = "Q" -> { Sel("", "a") } [] t = "O" -> { Sel("", "x"), Sel("", "a") } [] OTHER -> {}
+V4i_Comps(t) == CASE t = "Q" -> { Sel("", "o") } [] t = "O" -> { Sel("", "z") } [] OTHER -> {}
+V4i_Inlines(t) == CASE t = "Q" -> { "", "Q" } [] t = "O" -> { "", "O" } [] OTHER -> {}
+
 \* V3: arguments and literals -------------------------------------------------
 I1 == IntV("1")
 V3_Leafs(t) ==
